@@ -59,12 +59,15 @@ def rotate_slice(items, seed, parts):
     return [items[i] for i in sorted(idx[k::parts])]
 
 
-def make_allowed(pb, eb, ob, joint=None):
-    """allowed(pb', eb', ob') for the Explorer.  joint = max total deviations (None: no joint limit)."""
+def make_allowed(pb, eb, ob, joint=None, joint_po=None):
+    """allowed(pb', eb', ob') for the Explorer.  joint = max total deviations (None: no joint limit);
+    joint_po = max pre-emptions + order deviations together (None: no limit)."""
     def allowed(p, e, o):
         if p > pb or e > eb or o > ob:
             return False
         if joint is not None and p + e + o > joint:
+            return False
+        if joint_po is not None and p + o > joint_po:
             return False
         return True
     return allowed
@@ -105,7 +108,7 @@ def describe_switches(sched, limit=60):
     return out
 
 
-def explore_config(cfg, bounds, judge, max_execs=None, sample_states_every=8):
+def explore_config(cfg, bounds, judge, max_execs=None, sample_states_every=8, shard=None):
     """Explore one scenario; judge(obs) -> list of (signature, message) for a single execution."""
     from . import parharness as H, pysched
     st = ExploreStats()
@@ -141,7 +144,7 @@ def explore_config(cfg, bounds, judge, max_execs=None, sample_states_every=8):
                 ch.pop()
             st.add_violation(signature, message, replay)
 
-    ex = pysched.Explorer(run, make_allowed(*bounds), on_exec, max_execs=max_execs)
+    ex = pysched.Explorer(run, make_allowed(*bounds), on_exec, max_execs=max_execs, shard=shard)
     ex.explore()
     if ex.capped:
         st.caps.append("max_execs=%s" % max_execs)
@@ -173,6 +176,17 @@ def outcome_key(obs):
     return repr(parts)
 
 
+def shard_items(items, cost, threshold, nshards=6):
+    """Split costly (item) into nshards work units (item, (k, m)); cheap ones stay whole (item, None)."""
+    out = []
+    for it in items:
+        if cost(it) >= threshold:
+            out += [(it, (k, nshards)) for k in range(nshards)]
+        else:
+            out.append((it, None))
+    return out
+
+
 def run_items(ctx, items, worker, sample_every=50):
     """Run explore work items over the pinned fork pool, fold statistics into ctx."""
     tot = collections.Counter()
@@ -183,10 +197,12 @@ def run_items(ctx, items, worker, sample_every=50):
         k += 1
         tot["execs"] += res["execs"]
         tot["points"] += res["points"]
-        tot["configs"] += 1
+        tot["configs"] += 0 if res.get("shard_nonzero") else 1
         tot["max_decisions"] = max(tot["max_decisions"], res["max_decisions"])
-        tot["states"] += res["states"]
-        tot["transitions"] += res["transitions"]
+        if not res.get("shard_nonzero"):
+            # shards of one configuration revisit the same states: count the first shard only
+            tot["states"] += res["states"]
+            tot["transitions"] += res["transitions"]
         for o, n in res["outcomes"].items():
             outcomes[o] += n
         for o, n in res["verdicts"].items():
